@@ -3,13 +3,73 @@
 // The concurrent findings are demonstrated by demo_W1.cpp / demo_DR.cpp / demo_CT.cpp; this adapter is single-submitter.
 //
 // input file (name value lines, see native/replay_io.h):  INIT <initialSize> MAX <maxSize> QUEUE <maxQueueSize> TASKS <n> THROW <k: every k-th task throws, 0 = none>
+//   SCENARIO W1 | DR | CT   runs the committed concurrent scenario of that finding instead (same logic as demo_W1/DR/CT.cpp; unit.json
+//   replay_scenarios maps the obligations WB1/SP3, DR1/DR2, CT1 to them); optional TRIALS <n> for W1 / DR
 #include "iora/core/thread_pool.hpp"
 #include "replay_io.h"
 #include <atomic>
+// W1: submitters that pass the `_threads.size() < _maxSize` check together all spawn
+static void scenario_W1(long trials)
+{
+  size_t worst = 0;
+  for (long trial = 0; trial < trials; trial++)
+  {
+    iora::core::ThreadPool pool(1, 2, std::chrono::seconds(30), 4096);
+    const int N = 16;
+    std::atomic<int> go{0}, ran{0};
+    std::vector<std::thread> subs;
+    for (int i = 0; i < N; i++)
+      subs.emplace_back([&] { go.fetch_add(1); while (go.load() < N) {}
+                              for (int k = 0; k < 4; k++) pool.enqueue([&] { std::this_thread::sleep_for(std::chrono::milliseconds(2)); ran.fetch_add(1); }); });
+    for (auto &t : subs) t.join();
+    size_t n = pool.getTotalThreadCount();
+    if (n > worst) worst = n;
+  }
+  if (worst > 2) replay_io::fail("WB1 maxSize = 2 but getTotalThreadCount() = " + std::to_string(worst) + " after 16 concurrent submitters");
+  replay_io::ok("W1 scenario: worker count stayed <= maxSize (observed " + std::to_string(worst) + ")");
+}
+// DR: drain() polls `_activeThreads == 0 && pending == 0`; a task just taken from the queue is in neither number
+static void scenario_DR(long trials)
+{
+  for (long t = 0; t < trials; t++)
+  {
+    iora::core::ThreadPool pool(1, 1, std::chrono::seconds(30), 16);
+    std::atomic<bool> started{false}, release{false}, done2{false};
+    pool.enqueue([&] { started = true; while (!release.load(std::memory_order_acquire)) {} });
+    while (!started) {}
+    pool.enqueue([&] { std::this_thread::sleep_for(std::chrono::milliseconds(3)); done2 = true; });
+    release.store(true, std::memory_order_release);
+    for (volatile int k = 0; k < (t % 64) * 4; k++) {}
+    auto r = pool.drain(2000);
+    bool finished = done2.load();
+    if (r.success && !finished)
+      replay_io::fail("DR2 drain() reported success (\"" + r.message + "\") at trial " + std::to_string(t) + " but the accepted task had not finished");
+  }
+  replay_io::ok("DR scenario: no early drain in " + std::to_string(trials) + " trials");
+}
+// CT: a pool that can never have a worker accepts work
+static void scenario_CT()
+{
+  std::atomic<bool> ran{false};
+  bool acc;
+  { iora::core::ThreadPool p(0, 0); acc = p.tryEnqueue([&] { ran = true; }); }
+  if (acc && !ran) replay_io::fail("CT1 ThreadPool(0,0) accepted a task that never ran; the destructor returned without it");
+  replay_io::ok("CT scenario: accepted task ran before the destructor returned");
+}
+
 int main(int argc, char **argv)
 {
   std::map<std::string, std::string> in;
   if (argc > 1) in = replay_io::load(argv[1]);
+  if (in.count("SCENARIO"))
+  {
+    std::string sc = in["SCENARIO"];
+    long trials = in.count("TRIALS") ? (long)replay_io::u64(in["TRIALS"]) : 0;
+    if (sc == "W1") { scenario_W1(trials ? trials : 50); return 0; }
+    if (sc == "DR") { scenario_DR(trials ? trials : 10000); return 0; }
+    if (sc == "CT") { scenario_CT(); return 0; }
+    replay_io::fail("unknown SCENARIO " + sc);
+  }
   auto get = [&](const char *k, size_t d) { return in.count(k) ? (size_t)replay_io::u64(in[k]) : d; };
   size_t init = get("INIT", 1), max = get("MAX", 2), queue = get("QUEUE", 8), n = get("TASKS", 40), thr = get("THROW", 7);
   std::vector<std::atomic<int>> runs(n);
